@@ -776,11 +776,7 @@ theorem setValue_sound {ρ : Nat → Int} {base : Int} {σ : Sem.State} (h8 : σ
         (bounds_of_inRange64 (by rw [← ho.2]; exact ho.1.1.2.1)).1
       have hle : o.interval.start ≤ o.interval.stop := ho.1.1.2.2.2.1
       have hpos : 0 < d.size := hd.1
-      unfold markIntervalWrapping
-      rw [i64_of_bounds (by omega) hstop]
-      have := C05.markInterval_eq ob.mem (s := o.interval.start) (e := o.interval.stop) (n := d.size) (by omega)
-      unfold markIntervalValuesAsTop at this
-      rw [this]
+      rw [C05.markInterval_eq ob.mem (s := o.interval.start) (e := o.interval.stop) (n := d.size) (by omega)]
       obtain ⟨r1, r2⟩ := regionIn_weakenedRange h8 hr hin (s := o.interval.start) (e := o.interval.stop) (x := x)
         hpos ⟨hx.1, hx.2.1⟩ ⟨hstart, hstop⟩ v.toNat
       exact ⟨_, rfl, hu, r1, r2⟩
